@@ -34,6 +34,18 @@ func (n *node) sexp() string {
 	return b.String()
 }
 
+func nodeOfSexp(s *hx.Sexp) *node {
+	if s.List[0].Atom == "f" {
+		c, _ := strconv.Atoi(s.List[2].Atom)
+		return &node{name: s.List[1].Atom, content: c}
+	}
+	n := &node{name: s.List[1].Atom, dir: true}
+	for _, c := range s.List[2:] {
+		n.children = append(n.children, nodeOfSexp(c))
+	}
+	return n
+}
+
 func sortTree(n *node) {
 	sort.Slice(n.children, func(i, j int) bool { return n.children[i].name < n.children[j].name })
 	for _, c := range n.children {
@@ -312,18 +324,18 @@ func runOne(cfg Config, r *hx.Result, scratch string, tree *node, dot bool) {
 	}
 	for _, f := range before {
 		if !owned(f.name) && !nowSet[f] {
-			fail("C20 foreign file lost or changed: "+f.name, "file "+f.path+" kept byte for byte")
+			fail("C20 foreign file lost or changed", "file "+f.path+" kept byte for byte")
 		}
 	}
 	for _, f := range now {
 		if !beforeSet[f] {
-			fail("C20 file created or changed: "+f.name, "no new or altered files")
+			fail("C20 file created or changed", "no new or altered files")
 		}
 	}
 	if implErr == nil && !panicked {
 		for _, f := range now {
 			if owned(f.name) {
-				fail("C20 owned file left after successful clean: "+f.name, "all generated files and manifests removed")
+				fail("C20 owned file left after successful clean", "all generated files and manifests removed")
 			}
 		}
 		var ed []string
@@ -378,6 +390,20 @@ func Run(cfg Config) *hx.Result {
 	}
 	defer os.RemoveAll(scratch)
 	rng := hx.Rng(cfg.Seed, "c20")
+	if len(cfg.Replay) > 0 {
+		for _, line := range cfg.Replay {
+			xs, err := hx.ParseLine(line)
+			if err != nil || len(xs) != 4 || xs[0].Atom != "clean" {
+				panic("c20: cannot replay " + line)
+			}
+			var t *node
+			if xs[3].IsList {
+				t = nodeOfSexp(xs[3])
+			}
+			runOne(cfg, r, scratch, t, xs[2].Atom == "1")
+		}
+		return r
+	}
 
 	// fixed corpus first: missing target, empty target, the property's named situations
 	runOne(cfg, r, scratch, nil, false)
